@@ -63,12 +63,15 @@ class CounterRepr(Representation, RepresentationWithMutation, RepresentationWith
 class FF:
     """Fitness function backed by a table; appends every invocation to a file (survives workers)."""
 
-    def __init__(self, table, tag, logpath, scalar):
-        self.table, self.tag, self.logpath, self.scalar = table, tag, logpath, scalar
+    def __init__(self, table, tag, logpath, scalar, delays=None):
+        self.table, self.tag, self.logpath, self.scalar, self.delays = table, tag, logpath, scalar, delays
 
     def __call__(self, prog):
         with open(self.logpath, "a") as f:
             f.write(f"{self.tag} {prog.g}\n")
+        if self.delays:
+            import time
+            time.sleep(self.delays[prog.g % len(self.delays)])  # makes workers finish in a chosen order
         comps = self.table[prog.g % len(self.table)]
         return comps[0] if self.scalar else list(comps)
 
@@ -81,13 +84,13 @@ class WeightedSum:
         return sum(w * c for w, c in zip(self.ws, comps))
 
 
-def mk_problem(spec, table, tag, logpath):
+def mk_problem(spec, table, tag, logpath, delays=None):
     tbl = [[frac(c) for c in comps] for comps in table]
     if spec["kind"] == "so":
-        return SingleObjectiveProblem(FF(tbl, tag, logpath, True), minimize=spec["min"])
+        return SingleObjectiveProblem(FF(tbl, tag, logpath, True, delays), minimize=spec["min"])
     agg = WeightedSum([frac(w) for w in spec["agg"]]) if spec.get("agg") is not None else None
     m = spec["min"]
-    return MultiObjectiveProblem(list(m) if isinstance(m, list) else bool(m), FF(tbl, tag, logpath, False), aggregate_fitness=agg)
+    return MultiObjectiveProblem(list(m) if isinstance(m, list) else bool(m), FF(tbl, tag, logpath, False, delays), aggregate_fitness=agg)
 
 
 def read_log(path):
@@ -126,7 +129,7 @@ class Ident:
 
 def case_c13(c, logpath):
     rep = CounterRepr()
-    problems = [mk_problem(s, c["table"], pid, logpath) for pid, s in enumerate(c["problems"])]
+    problems = [mk_problem(s, c["table"], pid, logpath, c.get("delays")) for pid, s in enumerate(c["problems"])]
     inds = {i: Individual(genotype=i, representation=rep) for i in range(len(c["table"]))}
     ev = ParallelEvaluator() if c["par"] else SequentialEvaluator()
     obs = []
